@@ -143,6 +143,8 @@ def w_sho(case, led):
         mats = {}
         for sym in symbols:
             letters, exact, tprod, mask, scale = refs[sym]
+            if general and not (set(letters) <= {"x"} or set(letters) <= {"p"} or sym in ("x p", "n")):
+                continue      # general_xp_power only changes the dispatch of x / p powers; the other symbols are covered with the flag off
             fam = sho_family(letters)
             fields = dict(base_fields, symbol=sym, family=fam)
             key = base_key + (sym,)
